@@ -208,7 +208,10 @@ class Failure:
         if self.label:
             head = self.label.split()[0]
             if re.match(r'^C\d\d(,C\d\d)*$', head):
-                return head.split(',')
+                ps = head.split(',')
+                for p_ in list(ps):
+                    ps += [a for a in getattr(u, 'prop_alias', {}).get(p_, []) if a not in ps]
+                return ps
             if head == 'safety':
                 return list(u.safety_props)
             if head == 'aux':
@@ -484,7 +487,10 @@ def check_property(pid, tier='quick', seed=0):
             for mid, label, kind, fn in it.table:
                 clause_count += 1
                 head = label.split()[0]
-                if pid in head.split(','):
+                heads = head.split(',')
+                for p_ in list(heads):
+                    heads += getattr(u, 'prop_alias', {}).get(p_, [])
+                if pid in heads:
                     prop_clause_count += 1
                     if len(samples) < 12:
                         samples.append({'obligation': '%s:%s' % (u.uid, mid), 'label': label})
